@@ -27,6 +27,10 @@ VF_X char* x__Znam(uint64_t n) { return x_malloc(n); }
 VF_X char* x__ZnwmSt11align_val_t(uint64_t n, uint64_t a) { return x_malloc(n); }
 #define VF_HAVE_x__ZnamSt11align_val_t
 VF_X char* x__ZnamSt11align_val_t(uint64_t n, uint64_t a) { return x_malloc(n); }
+#define VF_HAVE_x__ZnwmRKSt9nothrow_t
+VF_X char* x__ZnwmRKSt9nothrow_t(uint64_t n, char* t) { return x_malloc(n); }
+#define VF_HAVE_x__ZdlPvRKSt9nothrow_t
+VF_X void x__ZdlPvRKSt9nothrow_t(char* p, char* t) { free(p); }
 #define VF_HAVE_x__ZdlPv
 VF_X void x__ZdlPv(char* p) { free(p); }
 #define VF_HAVE_x__ZdaPv
@@ -109,6 +113,16 @@ VF_X void x___cxa_guard_release(char* g) { *(uint8_t*)g = 1; }
 VF_X void x___cxa_guard_abort(char* g) { }
 #define VF_HAVE_x___cxa_thread_atexit
 VF_X uint32_t x___cxa_thread_atexit(char* f, char* a, char* d) { return 0; }
+
+/* ---- libstdc++ out-of-line constructors with no observable state here */
+#define VF_HAVE_x__ZNSt18condition_variableC1Ev
+VF_X void x__ZNSt18condition_variableC1Ev(char* t) { }
+#define VF_HAVE_x__ZNSt18condition_variableD1Ev
+VF_X void x__ZNSt18condition_variableD1Ev(char* t) { }
+#define VF_HAVE_x__ZNSt8ios_base4InitC1Ev
+VF_X void x__ZNSt8ios_base4InitC1Ev(char* t) { }
+#define VF_HAVE_x__ZNSt8ios_base4InitD1Ev
+VF_X void x__ZNSt8ios_base4InitD1Ev(char* t) { }
 
 /* ---- environment */
 #define VF_HAVE_x_getenv
